@@ -507,7 +507,6 @@ Proof.
   rewrite (mp_stmts_ext g (extend g (atags body)) h body) by (intros x Hx; symmetry; apply extend_agree; exact Hx).
   apply emit_script_mp; [exact Hh|apply extend_inj; exact Hg].
 Qed.
-Print Assumptions emit_script_renamed.
 
 (* renaming the tags only / changing the commands' ids only *)
 Definition rn_stmts (g : nat -> nat) : list stmt -> list stmt := mp_stmts g (fun c => c).
@@ -533,7 +532,6 @@ Proof.
   intros g mp tl name glob optimize body Hg. unfold rn_stmts.
   rewrite (emit_script_renamed g (fun c => c) mp tl name glob optimize body cmd_same_id Hg). apply map_res_id.
 Qed.
-Print Assumptions emit_script_tag_renaming.
 
 (* the text printed for a script *)
 Definition script_text mp tl name glob optimize body : res text :=
@@ -555,7 +553,6 @@ Proof.
   rewrite (emit_script_renamed g h mp tl name glob optimize body Hh Hg), map_res_map_res.
   apply map_res_ext. intros x. apply print_instrs_mp. exact Hh.
 Qed.
-Print Assumptions script_text_renamed.
 
 Theorem emit_script_cids_ignored : forall (k : cmd -> nat) mp tl name glob optimize body,
   emit_script mp tl name glob optimize (recid_stmts k body) =
@@ -568,7 +565,6 @@ Proof.
   - apply emit_script_renamed; [apply cmd_same_set_cid|exact I].
   - apply script_text_renamed; [apply cmd_same_set_cid|exact I].
 Qed.
-Print Assumptions emit_script_cids_ignored.
 
 (* ---------- the hypothesis is needed: a renaming that identifies the tags of two loops changes the output ---------- *)
 Definition tk0 (s : string) : token := {| ttype := IDENT; tlit := t s; tline := 1; tsb := 0; tsu := 0; teline := 1; teb := 0; teu := 0 |}.
@@ -767,7 +763,6 @@ Proof.
   rewrite <- (print_instrs_mp erase_cmd cmd_same_erase mp (y1 ++ _)), <- (print_instrs_mp erase_cmd cmd_same_erase mp (y2 ++ _)).
   fold ei. rewrite !map_app, Ey. reflexivity.
 Qed.
-Print Assumptions emit_program_sim.
 
 (* ---------- same shape ---------- *)
 Definition z0 : nat -> nat := fun _ => 0.
@@ -1028,7 +1023,6 @@ Proof.
     fold G in Hy, Hy'. rewrite (lookup_in G NF _ _ Hy), (lookup_in G NF _ _ Hy') in E. subst y'. eapply snd_inj; eassumption.
   - apply K; [|exact I|exact I]. intros a b Hab. apply lookup_in; assumption.
 Qed.
-Print Assumptions same_shape_body_sim.
 
 (* ---------- programs of the same shape ---------- *)
 Definition shape_opt (o : option (list stmt)) : option (list stmt) := option_map shape o.
@@ -1129,7 +1123,6 @@ Proof.
   intros optimize mp p1 p2 H F1 F2. apply emit_program_sim. unfold shape_program in H. injection H as HT HX.
   split; [apply tops_sim_shape; assumption|exact HX].
 Qed.
-Print Assumptions same_shape_same_output.
 
 (* MAIN 7: down to source texts: two sources (compiled with any command configurations, switch values, fonts, modes) whose
    parsed programs have the same shape compile to the same outcome *)
@@ -1149,7 +1142,6 @@ Proof.
   - pose proof (ProgSrc.accepted_bodies_are_src_ok _ _ _ _ _ _ _ _ _ _ _ H2) as A. eapply Forall_impl; [|exact A].
     intros b ((_ & N) & S). split; assumption.
 Qed.
-Print Assumptions compile_same_shape.
 
 (* ---------- the hypotheses are satisfiable: a script with a poryswitch and its poryswitch-free twin ---------- *)
 Open Scope string_scope.
@@ -1368,11 +1360,6 @@ Proof.
 Qed.
 End P.
 End BlockStep.
-Print Assumptions BlockStep.block_poryswitch_step.
-Print Assumptions BlockStep.switch_block_poryswitch_step.
-Print Assumptions BlockStep.pory_stmts_poryswitch_step.
-Print Assumptions BlockStep.stmt_cases_table.
-Print Assumptions BlockStep.block_poryswitch_contributes.
 
 (* the hypotheses hold at the poryswitch of src_pory (token 4 of the source): three cases, the RUBY case - a while loop - is selected *)
 Example block_poryswitch_example :
@@ -1423,4 +1410,3 @@ Theorem body_sim_same_shape b1 b2 : body_sim b1 b2 -> shape b1 = shape b2.
 Proof.
   intros (g & _ & E). rewrite <- (shape_renamed g erase_cmd cmd_same_erase b1), E. unfold erase_cids. apply shape_renamed. exact cmd_same_erase.
 Qed.
-Print Assumptions body_sim_same_shape.
